@@ -53,7 +53,7 @@ class TLCResult:
 
 def run(ctx, specdir, module, cfg=None, workers="auto", timeout=600, extra_files=None,
         simulate=None, depth=None, seed=None, coverage=False, deadlock=None, dfs_queue=False,
-        heap=None, name=None, dump_trace=None, jvm_props=None, args=None):
+        heap=None, name=None, dump_trace=None, jvm_props=None, args=None, deps=None):
     """Run TLC on spec/<specdir>/<module>.tla in a scratch copy.  Returns TLCResult.
 
     Does not interpret the outcome: callers decide (a model-only counterexample is Inconclusive
@@ -63,6 +63,10 @@ def run(ctx, specdir, module, cfg=None, workers="auto", timeout=600, extra_files
     for f in os.listdir(src):
         if f.endswith((".tla", ".cfg")):
             shutil.copy(os.path.join(src, f), wd)
+    for d in (deps or []):          # modules EXTENDed from other spec directories
+        for f in os.listdir(os.path.join(VERIF, "spec", d)):
+            if f.endswith(".tla") and not os.path.exists(os.path.join(wd, f)):
+                shutil.copy(os.path.join(VERIF, "spec", d, f), wd)
     common = os.path.join(VERIF, "spec", "common")
     if os.path.isdir(common):
         for f in os.listdir(common):
